@@ -202,4 +202,4 @@ fn test_barrier() {
 
 #[cfg(kani)]
 #[path = "/verif/harness/may/sync_barrier.rs"]
-mod verif_kani;
+pub(crate) mod verif_kani;
